@@ -167,7 +167,8 @@ def gen_stop(rnd, depth):
         if k == "attempt":
             return {"k": k, "n": rnd.choice([0, 1, 2, 3, 5, 10, 1000])}
         if k in ("delay", "before"):
-            return {"k": k, "d": rnd.choice([0, 0.5, 1, 2.5, 10, 3600]), "td": rnd.random() < 0.25}
+            # (durations of a day and more: timedelta keeps days apart from seconds)
+            return {"k": k, "d": rnd.choice([0, 0.5, 1, 2.5, 10, 3600, 86400, 90000.5, 172800]), "td": rnd.random() < 0.35}
         return {"k": k}
     k = rnd.choice(["any", "all", "or", "and"])
     n = 2 if k in ("or", "and") else rnd.randint(0, 3)
